@@ -232,8 +232,8 @@ Lemma old_slice_twins_lost :
   /\ rec (fst (step KList (SetSlice 0 0 [2; 3]) (init KList []))) = [2; 3].
 Proof. split; vm_compute; reflexivity. Qed.
 
-(* owner.f = [3]; element 1 already relates to 2 through the transitive f; owner.f[-1] = 1: Python replaces 3 and inference adds 2;
-   the code appends the inferred 2 first and then overwrites IT: 3 stays, 2 is lost from the field *)
-Theorem refuted_setitem_grown :
-  setitem_grown (-1) 1 [2] [3] = Some [3; 1] /\ py_setitem (-1) 1 [3] = Some [1].
+(* regression (before cd6cc17): owner.f = [3]; element 1 already relates to 2 through the transitive f; owner.f[-1] = 1: Python replaces
+   3 and inference adds 2; the old order appended the inferred 2 first and then overwrote IT: 3 stayed, 2 was lost from the field *)
+Lemma old_setitem_grown_wrong_position :
+  setitem_grown (-1) 1 [2] [3] = Some [3; 1] /\ setitem_then_infer (-1) 1 [2] [3] = Some [1; 2].
 Proof. split; vm_compute; reflexivity. Qed.
